@@ -532,4 +532,63 @@ theorem exec_allKept (cfg : Cfg) (hu : cfg.usedSetBeforeRun = true) (plan : Plan
     simp only [exec]
     exact ih _ (step_allFin cfg plan e op hf) (step_allKept cfg hu plan e op hf he)
 
+/-! ### a served request has flushed the deletion queue -/
+
+theorem drain_ok_queue (cfg : Cfg) (plan : Plan) :
+    ∀ (q : List Nat) (p : Proc), (drain cfg plan p q).2 = .ok → (drain cfg plan p q).1.queue = [] := by
+  intro q
+  induction q with
+  | nil => intro p _; rfl
+  | cons d rest ih =>
+    intro p
+    unfold drain
+    rcases hres : send cfg plan { p with queue := rest } (.delete d) with ⟨p', o⟩
+    cases o with
+    | ok => simp only []; exact ih p'
+    | raised c => simp
+    | remote c => simp
+
+theorem run_ok_queue (cfg : Cfg) (plan : Plan) (p : Proc) (s : Nat) :
+    (run cfg plan p s).2 = .ok → (run cfg plan p s).1.queue = [] := by
+  unfold run
+  have hq := drain_ok_queue cfg plan p.queue p
+  rcases hres : drain cfg plan p p.queue with ⟨p', o⟩
+  rw [hres] at hq
+  cases o with
+  | ok =>
+    simp only []
+    intro _
+    rw [(send_idx_queue cfg plan p' (.call s)).2]
+    exact hq rfl
+  | raised c => simp
+  | remote c => simp
+
+theorem run_idx (cfg : Cfg) (plan : Plan) (p : Proc) (s : Nat) : (run cfg plan p s).1.idx = p.idx := by
+  unfold run
+  have hi := drain_idx cfg plan p.queue p
+  rcases hres : drain cfg plan p p.queue with ⟨p', o⟩
+  rw [hres] at hi
+  cases o with
+  | ok => simp only []; rw [(send_idx_queue cfg plan p' (.call s)).1]; exact hi
+  | raised c => exact hi
+  | remote c => exact hi
+
+/-- when the request of a Script bound to helper `k` came back without an exception, the deletion
+queue of that helper is empty: everything queued was deleted before the request was served -/
+theorem callRun_ok_flushed (cfg : Cfg) (plan : Plan) (e : Env) (k s : Nat)
+    (h : (callRun cfg plan e k s).2 = .ok) :
+    ∀ p, (callRun cfg plan e k s).1.getProc k = some p → p.queue = [] := by
+  unfold callRun at h ⊢
+  split at h
+  · simp at h
+  · rename_i q hq
+    rename_i x
+    simp only [hq]
+    intro p hp
+    rcases getProc_setProc hp with rfl | ⟨hp', hne⟩
+    · exact run_ok_queue cfg plan q s h
+    · exfalso
+      apply hne
+      rw [run_idx, getProc_idx hp', getProc_idx hq]
+
 end JediModel.Helper
